@@ -18,13 +18,34 @@ def gen_instance(rng, planner):
     rtg = planner != "cplex" and rng.random() < 0.35
     tasks = []
     ngraphs = rng.randint(2, 4)
-    budget = 4
+    budget = rng.choice([4, 4, 5])
     for g in range(ngraphs):
         if budget <= 0:
             break
         chain = 2 if (rtg and budget >= 2 and rng.random() < 0.7) else 1
         prev = None
         dl = now + rng.randint(2, 10)
+        # a graph with SEVERAL reward tasks: independent siblings (all of them sinks) or, with whole graphs released, a fork
+        # parent -> two children: the graph counts only if all of them are placed
+        shape = "chain"
+        if budget >= 2 and rng.random() < 0.3:
+            shape = "fork" if (rtg and budget >= 3 and rng.random() < 0.5) else "siblings"
+        if shape != "chain":
+            members = []
+            for k in range(3 if (shape == "fork" or (budget >= 3 and rng.random() < 0.4)) else 2):
+                sts = []
+                for _ in range(rng.choice([1, 1, 2])):
+                    req = {t: rng.randint(1, 2) for t in types if rng.random() < 0.7} or {types[0]: rng.randint(1, 2)}
+                    sts.append((req, rng.randint(1, 3)))
+                is_child = shape == "fork" and k > 0
+                t = {"name": f"t{g}_{k}", "graph": f"G{g}", "release": -1 if is_child else rng.choice([now, now, max(0, now - 2)]),
+                     "deadline": dl, "strategies": sts, "parents": [members[0]] if is_child else [], "children": [], "state": "offered"}
+                if is_child:
+                    tasks[members[0]]["children"].append(len(tasks))
+                members.append(len(tasks))
+                tasks.append(t)
+                budget -= 1
+            continue
         for k in range(chain):
             sts = []
             for _ in range(rng.choice([1, 1, 2])):
